@@ -10,13 +10,32 @@ package e2e
 
 import (
 	"bytes"
+	"context"
+	"crypto/ecdsa"
+	"crypto/elliptic"
+	"crypto/rand"
+	"crypto/tls"
+	"crypto/x509"
+	"crypto/x509/pkix"
 	"encoding/json"
+	"encoding/pem"
 	"fmt"
+	"math/big"
+	"net"
+	"net/http"
+	"net/http/httptest"
 	"strings"
+	"sync"
 	"testing"
+	"time"
 
 	"go.uber.org/zap"
 	"go.uber.org/zap/zapcore"
+	"google.golang.org/grpc"
+	"google.golang.org/grpc/metadata"
+	"google.golang.org/protobuf/types/known/emptypb"
+
+	"go.opentelemetry.io/collector/component/componenttest"
 
 	"go.opentelemetry.io/collector/config/configgrpc"
 	"go.opentelemetry.io/collector/config/confighttp"
@@ -161,6 +180,229 @@ func vUnmCase(out *vOut, ctx, sec, stored, cause string) {
 	}
 }
 
+// ---- use: what the consumers of an opaque value actually send --------------------------------------
+func vUseCase(out *vOut, consumer, key, sec, got string) {
+	term := "CUse " + consumer + " " + vEnc(sec) + " " + vEnc(got)
+	out.Case(true, term)
+	out.Stat("use_"+strings.Fields(strings.Trim(consumer, "()"))[0], 1)
+	if got != sec {
+		out.Oracle("use-does-not-yield-secret", term, fmt.Sprintf("consumer=%s key=%q: configured %q, the consumer sent %q; cause=unexplained", consumer, key, sec, got))
+	}
+}
+
+func vHeaderSafe(s string) bool {
+	if s == "" || s != strings.TrimSpace(s) {
+		return false
+	}
+	for i := 0; i < len(s); i++ {
+		if s[i] < 0x20 || s[i] > 0x7e {
+			return false
+		}
+	}
+	return true
+}
+
+func vHostSafe(s string) bool {
+	for i := 0; i < len(s); i++ {
+		c := s[i]
+		if !(c >= 'a' && c <= 'z' || c >= 'A' && c <= 'Z' || c >= '0' && c <= '9' || c == '-' || c == '.' || c == '_') {
+			return false
+		}
+	}
+	return s != ""
+}
+
+func vUseHTTP(t *testing.T, out *vOut, secrets []string) {
+	ctx := context.Background()
+	var mu sync.Mutex
+	var gotHdr http.Header
+	var gotHost string
+	srv := httptest.NewServer(http.HandlerFunc(func(w http.ResponseWriter, r *http.Request) {
+		mu.Lock()
+		gotHdr, gotHost = r.Header.Clone(), r.Host
+		mu.Unlock()
+	}))
+	defer srv.Close()
+	keys := []string{"Authorization", "X-Api-Key", "X-Signature-Bin", "x-tenant-bin"}
+	for _, sec := range secrets {
+		if !vHeaderSafe(sec) {
+			continue
+		}
+		// -- client headers and Host
+		cc := confighttp.NewDefaultClientConfig()
+		cc.Endpoint = srv.URL
+		cc.Headers = map[string]configopaque.String{"Host": configopaque.String(sec)}
+		for _, k := range keys {
+			cc.Headers[k] = configopaque.String(sec)
+		}
+		cl, err := cc.ToClient(ctx, componenttest.NewNopHost(), componenttest.NewNopTelemetrySettings())
+		if err != nil {
+			t.Fatalf("ToClient: %v", err)
+		}
+		req, _ := http.NewRequestWithContext(ctx, http.MethodGet, srv.URL, nil)
+		if resp, err := cl.Do(req); err != nil {
+			t.Fatalf("http client: %v", err)
+		} else {
+			resp.Body.Close()
+		}
+		mu.Lock()
+		for _, k := range keys {
+			vUseCase(out, "UseHttpClientHeader", k, sec, gotHdr.Get(k))
+		}
+		if vHostSafe(sec) { // net/http itself cleans a Host value that is not a valid host
+			vUseCase(out, "UseHttpClientHost", "Host", sec, gotHost)
+		}
+		mu.Unlock()
+		// -- server response headers
+		sc := confighttp.NewDefaultServerConfig()
+		sc.Endpoint = "127.0.0.1:0"
+		sc.TLSSetting = nil
+		sc.ResponseHeaders = map[string]configopaque.String{}
+		for _, k := range keys {
+			sc.ResponseHeaders[k] = configopaque.String(sec)
+		}
+		lis, err := sc.ToListener(ctx)
+		if err != nil {
+			t.Fatalf("ToListener: %v", err)
+		}
+		hs, err := sc.ToServer(ctx, componenttest.NewNopHost(), componenttest.NewNopTelemetrySettings(), http.HandlerFunc(func(w http.ResponseWriter, _ *http.Request) { w.WriteHeader(204) }))
+		if err != nil {
+			t.Fatalf("ToServer: %v", err)
+		}
+		go func() { _ = hs.Serve(lis) }()
+		rctx, cancel := context.WithTimeout(ctx, 30*time.Second)
+		rreq, _ := http.NewRequestWithContext(rctx, http.MethodGet, "http://"+lis.Addr().String()+"/", nil)
+		resp, err := http.DefaultClient.Do(rreq)
+		if err != nil {
+			cancel()
+			t.Fatalf("http server: %v", err)
+		}
+		if resp.StatusCode != 204 {
+			var bb bytes.Buffer
+			_, _ = bb.ReadFrom(resp.Body)
+			t.Fatalf("http server: status %d, headers %v body %q proto %s", resp.StatusCode, resp.Header, bb.String(), resp.Proto)
+		}
+		for _, k := range keys {
+			vUseCase(out, "UseHttpServerResponseHeader", k, sec, resp.Header.Get(k))
+		}
+		resp.Body.Close()
+		cancel()
+		_ = hs.Close()
+	}
+}
+
+func vUseGRPC(t *testing.T, out *vOut, secrets []string) {
+	var mu sync.Mutex
+	got := map[string]metadata.MD{}
+	srv := grpc.NewServer(grpc.UnknownServiceHandler(func(_ any, ss grpc.ServerStream) error {
+		m, _ := grpc.Method(ss.Context())
+		md, _ := metadata.FromIncomingContext(ss.Context())
+		mu.Lock()
+		got[m] = md.Copy()
+		mu.Unlock()
+		return nil
+	}))
+	lis, err := net.Listen("tcp", "127.0.0.1:0")
+	if err != nil {
+		t.Fatal(err)
+	}
+	go func() { _ = srv.Serve(lis) }()
+	defer srv.Stop()
+	// one header per (secret, key style): plain keys need printable ASCII values, "-bin" keys take any bytes
+	type hk struct {
+		key string
+		sec string
+		bin bool
+	}
+	var hks []hk
+	hdr := map[string]configopaque.String{}
+	for i, sec := range secrets {
+		if len(sec) > 200 {
+			continue
+		}
+		for j, suffix := range []string{"-bin", "-Bin", "-BIN"} {
+			k := fmt.Sprintf("x-s%d-%d%s", i, j, suffix)
+			hks = append(hks, hk{k, sec, true})
+			hdr[k] = configopaque.String(sec)
+		}
+		if vHeaderSafe(sec) {
+			for _, k := range []string{fmt.Sprintf("x-s%d", i), fmt.Sprintf("X-Auth-S%d", i), fmt.Sprintf("x-s%d-binx", i)} {
+				hks = append(hks, hk{k, sec, false})
+				hdr[k] = configopaque.String(sec)
+			}
+		}
+	}
+	cc := configgrpc.NewDefaultClientConfig()
+	cc.Endpoint = lis.Addr().String()
+	cc.TLSSetting = configtls.ClientConfig{Insecure: true}
+	cc.Headers = hdr
+	ctx, cancel := context.WithTimeout(context.Background(), 60*time.Second)
+	defer cancel()
+	conn, err := cc.ToClientConn(ctx, componenttest.NewNopHost(), componenttest.NewNopTelemetrySettings())
+	if err != nil {
+		t.Fatalf("ToClientConn: %v", err)
+	}
+	defer conn.Close()
+	// the handler answers nothing: the calls end with an error AFTER the server has seen the metadata
+	_ = conn.Invoke(ctx, "/verif.S/Unary", &emptypb.Empty{}, &emptypb.Empty{})
+	if st, err := conn.NewStream(ctx, &grpc.StreamDesc{StreamName: "Stream", ClientStreams: true, ServerStreams: true}, "/verif.S/Stream"); err == nil {
+		_ = st.CloseSend()
+		_ = st.RecvMsg(&emptypb.Empty{})
+	} else {
+		t.Fatalf("NewStream: %v", err)
+	}
+	mu.Lock()
+	defer mu.Unlock()
+	for _, c := range []struct{ method, cons string }{{"/verif.S/Unary", "UseGrpcUnary"}, {"/verif.S/Stream", "UseGrpcStream"}} {
+		md, ok := got[c.method]
+		if !ok {
+			t.Fatalf("the server never saw %s", c.method)
+		}
+		for _, h := range hks {
+			v := md.Get(h.key)
+			g := "<absent>"
+			if len(v) == 1 {
+				g = v[0]
+			} else if len(v) > 1 {
+				g = fmt.Sprintf("<%d values>", len(v))
+			}
+			vUseCase(out, "("+c.cons+" "+vBool(h.bin)+")", h.key, h.sec, g)
+		}
+	}
+}
+
+func vUseTLS(t *testing.T, out *vOut) {
+	for i := 0; i < 2; i++ {
+		key, err := ecdsa.GenerateKey(elliptic.P256(), rand.Reader)
+		if err != nil {
+			t.Fatal(err)
+		}
+		tmpl := &x509.Certificate{SerialNumber: big.NewInt(int64(i + 1)), Subject: pkix.Name{CommonName: "verif"}, NotBefore: time.Now().Add(-time.Hour), NotAfter: time.Now().Add(time.Hour)}
+		der, err := x509.CreateCertificate(rand.Reader, tmpl, tmpl, &key.PublicKey, key)
+		if err != nil {
+			t.Fatal(err)
+		}
+		kder, _ := x509.MarshalECPrivateKey(key)
+		certPem := string(pem.EncodeToMemory(&pem.Block{Type: "CERTIFICATE", Bytes: der}))
+		keyPem := string(pem.EncodeToMemory(&pem.Block{Type: "EC PRIVATE KEY", Bytes: kder}))
+		cfg := configtls.ClientConfig{Config: configtls.Config{CertPem: configopaque.String(certPem), KeyPem: configopaque.String(keyPem)}}
+		gotKey, gotCert := "<none>", "<none>"
+		if tc, err := cfg.LoadTLSConfig(context.Background()); err != nil {
+			gotKey = "ERR " + err.Error()
+		} else if tc.GetClientCertificate != nil {
+			if c, err := tc.GetClientCertificate(&tls.CertificateRequestInfo{}); err == nil && c != nil && len(c.Certificate) > 0 {
+				gotCert = string(pem.EncodeToMemory(&pem.Block{Type: "CERTIFICATE", Bytes: c.Certificate[0]}))
+				if k, ok := c.PrivateKey.(*ecdsa.PrivateKey); ok {
+					b, _ := x509.MarshalECPrivateKey(k)
+					gotKey = string(pem.EncodeToMemory(&pem.Block{Type: "EC PRIVATE KEY", Bytes: b}))
+				}
+			}
+		}
+		vUseCase(out, "UseTLSKeyPair", "key_pem", keyPem, gotKey)
+		vUseCase(out, "UseTLSKeyPair", "cert_pem", certPem, gotCert)
+	}
+}
+
 func TestVerifC14E2E(t *testing.T) {
 	out := vOpen()
 	defer out.Close()
@@ -172,6 +414,11 @@ func TestVerifC14E2E(t *testing.T) {
 	for _, sh := range shapes {
 		r.run(sh, vE2EPaths(sh), 40)
 	}
+
+	// ---- use: what arrives on the wire / in the TLS stack
+	vUseHTTP(t, out, r.secrets)
+	vUseGRPC(t, out, r.secrets)
+	vUseTLS(t, out)
 
 	// ---- decoding through confmap
 	for _, sec := range r.secrets {
